@@ -27,8 +27,26 @@ RULE = ("random masks (densities 0.1-0.9, plus single pixels, rings with holes, 
         "normalize_psf on/off (kernel sums +-2^j), exposure times 0.5..1000, Poisson noise-map on/off, noise_if_add_noise_false, seeds; "
         "the same simulator for two images and the first again; then Imaging.apply_mask (fresh / re-masking a masked dataset / the same "
         "mask object edited in place; interior masks and masks touching the frame edge = padded datasets) and the masked dataset's "
-        "convolver. Entry points: Convolver.convolve_image / convolve_image_no_blurring / convolve_mapping_matrix, "
-        "Kernel2D.convolved_array_from / convolved_array_with_mask_from, SimulatorImaging.via_image_from -> apply_mask -> convolver. "
+        "convolver. "
+        "The history also calls the raw-ndarray sibling convolve_image_no_blurring_interpolation and checks every returned structure (paired with "
+        "the mask it was computed for, native view = slim values at the unmasked pixels). Simulator additions: psf omitted (the simulator's own "
+        "identity kernel), image / kernel / mask pixel scales (square and (y,x)-different) and origins varied independently, input images as "
+        "int64 / float32 / list-built / user-subclass / Kernel2D objects, a second image of ANOTHER shape through the same simulator, images "
+        "rescaled by 2^-34..2^30 when no sky is involved, the simulator's settings and every shared default-argument object "
+        "(Imaging's OverSamplingDataset() ...) fingerprinted before/after, an Imaging built DIRECTLY from the simulated arrays and a "
+        "caller-owned kernel (use_normalized_psf default / on / off) -> apply_mask -> apply_over_sampling (explicit / default argument) -> "
+        "convolver, blurring with the PSF the dataset carries, caller's kernel unchanged. "
+        "INPUT-KIND stream: one history per input through image / blurring image / raw slim buffer / mapping matrix / whole-frame array "
+        "given as int64, int32, int8, uint8, bool, float32, Python lists, Fortran-ordered and non-contiguous views (values exactly "
+        "representable in the kind, kernels with quarter or k+-2^-30 entries so that a buffer inheriting the input dtype truncates), "
+        "user subclasses of Mask2D / Array2D / Kernel2D and a Kernel2D used as the image, masks built from bool / int / list input, every "
+        "Kernel2D constructor with checkable contents (no_mask 2-D / slim+shape_native / int / float32, ones, zeros, full on non-square shapes, "
+        "no_blur, normalize=True and .normalized with sums +-2^j), mask / kernel / array pixel scales and origins all different, mapping "
+        "matrices with 0 columns, masks without any unmasked pixel, the all-zero kernel, one mask with 256 unmasked pixels, every call made twice with the same object and the "
+        "argument's contents and dtype compared afterwards. "
+        "Entry points: Convolver.convolve_image / convolve_image_no_blurring / convolve_image_no_blurring_interpolation / convolve_mapping_matrix, "
+        "Kernel2D.convolved_array_from / convolved_array_with_mask_from, SimulatorImaging.via_image_from -> apply_mask -> convolver, "
+        "Imaging(...) -> apply_mask -> apply_over_sampling -> convolver. "
         "Non-trivial = at least 2 unmasked pixels and a kernel with more than one non-zero entry; distinct = distinct JSON input.")
 EXHAUSTIVE = {}
 TRUSTED = ["hand-written Gallina model coq/Model/C03.v (frame tables + scatter loops), tied to /repo by this correspondence run (exact "
@@ -168,11 +186,48 @@ def gen_inputs(tier, rng):
         yield gen_sim(rng, i)
     for i in range(40 if tier == "thorough" else 4):
         yield {"op": "simulate", "seed": rng.randrange(10 ** 9)}
+    # input-KIND stream: the same operations through integer / bool / float32 / list / non-contiguous inputs, user subclasses of the
+    # accepted classes, every Kernel2D constructor, mask / array / kernel geometries (pixel scales, origins) varied independently,
+    # the sibling entry point convolve_image_no_blurring_interpolation, and directed rare states (no unmasked pixel, zero kernel)
+    for i in range(260 if tier == "thorough" else 26):
+        yield gen_kinds(rng, i)
+    # directed rare state: more than 255 unmasked pixels (slim indices that do not fit a small integer type), thin kernels
+    for (H, W, kh, kw) in ([(16, 18, 1, 3), (18, 15, 3, 1), (16, 16, 1, 1)] if tier == "thorough" else [(16, 16, 1, 1)]):
+        m = rand_mask(rng, H, W, kh, kw, "full"); K = rand_kernel(rng, kh, kw, quarters=True); seed = rng.randrange(10 ** 9)
+        for op in ("init", "convolve"):
+            yield {"op": op, "m": m, "K": sk(K), "seed": seed, "sparse": False, "vs": 0, "ks": 0}
+
+IMG_KINDS = ["int64", "f32", "bool", "list", "view", "sub", "kern", "int32", "f64"]
+MAT_KINDS = ["int64", "bool", "f32", "fortran", "view", "uint8", "int8", "f64"]
+KERNEL_KINDS = ["plain", "int", "f32", "ones", "full", "noblur", "normalize", "normalized", "sub", "slim", "zeros", "fine"]
+MASK_KINDS = ["plain", "sub", "list", "int"]
+SCALES = [1.0, [2.0, 0.5], 0.25, [0.5, 3.0], 1.0]
+ORIGINS = [[0.0, 0.0], [1.0, -2.0], [-0.5, 0.25]]
+
+def gen_kinds(rng, i):
+    kk = KERNEL_KINDS[i % len(KERNEL_KINDS)]
+    kh, kw = rng.choice([1, 3, 3, 5]), rng.choice([1, 3, 3, 5])
+    if kk == "noblur": kh = kw = 3
+    if i % 8 == 3 and kh == kw and kk != "noblur": kw = kh + 2 if kh < 5 else 1          # non-square kernels (ones / full / slim: shape[0] vs shape[1])
+    H = rng.randint(kh, min(8, kh + 4)); W = rng.randint(kw, min(8, kw + 4))
+    style = "empty" if i % 13 == 6 else rng.choice(["random", "random", "single", "ring", "full"])
+    m = [[True] * W for _ in range(H)] if style == "empty" else rand_mask(rng, H, W, kh, kw, style)
+    K = rand_kernel(rng, kh, kw, quarters=(kk != "int"))
+    if kk in ("normalize", "normalized"):
+        s0 = sum(v for r in K for v in r)
+        K[kh // 2][kw // 2] += rng.choice([Fraction(1), Fraction(2), Fraction(-4), Fraction(1, 2), Fraction(8), Fraction(-1)]) - s0
+    if kk == "fine": K = [[v + Fraction(rng.choice([-1, 1, 3]), 2 ** 30) for v in r] for r in K]
+    return {"op": "kinds", "m": m, "K": sk(K), "seed": rng.randrange(10 ** 9), "kk": kk,
+            "ik": IMG_KINDS[(i // 2) % len(IMG_KINDS)], "mk": MAT_KINDS[(i // 3) % len(MAT_KINDS)], "mask_kind": MASK_KINDS[(i // 5) % 4],
+            "mps": SCALES[i % 5], "kps": SCALES[(i // 2 + 1) % 5], "aps": SCALES[(i // 3 + 2) % 5],
+            "morigin": ORIGINS[i % 3], "aorigin": ORIGINS[(i // 2) % 3], "ncols": 0 if i % 11 == 7 else rng.randint(1, 3)}
 
 def gen_sim(rng, i):
     kh, kw = rng.choice([1, 3, 3, 5]), rng.choice([1, 3, 3, 5])
     if i % 9 == 4: kh, kw = rng.choice([(3, 4), (1, 2), (5, 6), (2, 3), (4, 4), (2, 1)])     # rejected kernels
     even = kh % 2 == 0 or kw % 2 == 0
+    psf_none = (i % 8 == 5) and not even          # psf omitted: the simulator's own identity kernel (3x3 in the current code)
+    if psf_none: kh = kw = 3
     edge = (i % 5 in (1, 3))                # a mask touching the frame edge: apply_mask pads the dataset
     H = rng.randint(kh + 1, max(kh + 1, 6 if edge else 8)); W = rng.randint(kw + 1, max(kw + 1, 6 if edge else 8))
     normalize = bool(rng.random() < 0.5)
@@ -190,6 +245,7 @@ def gen_sim(rng, i):
         K[kh // 2][kw // 2] += tgt - s0
     elif all(v == 0 for r in K for v in r) and rng.random() < 0.7:
         K[kh // 2][kw // 2] = Fraction(1)
+    if psf_none: K = [[Fraction(int((a, b) == (1, 1))) for b in range(3)] for a in range(3)]      # sum 1: normalising changes nothing
     nimg = 1 if i % 2 else 2
     images = []
     for _ in range(nimg):
@@ -214,10 +270,21 @@ def gen_sim(rng, i):
         else:
             mm = rand_mask(rng, H, W, 1 if even else kh, 1 if even else kw, "random")
         masks.append(mm)
+    noise_false, noise_seed = rng.choice([None, 1.0, 2.0, 0.125]), rng.choice([1, 7, -1])
+    if sky == 0 and not include_pn and i % 8 == 3:          # tiny / huge magnitudes (exact: no sky is added)
+        sc = p2(rng.choice([-30, -34, 30]))
+        images = [[[v * sc for v in r] for r in im] for im in images]
+    if i % 6 == 0 and not signed and not even:
+        # the same simulator for a second image of ANOTHER shape (state remembered per simulator must be keyed by the image)
+        H2, W2 = H + rng.choice([1, 2]), W - 1
+        images[1] = [[Fraction(rng.randint(0, 9)) for _ in range(W2)] for _ in range(H2)]
     return {"op": "sim", "K": sk(K), "images": [sk(im) for im in images], "sky": str(sky), "exposure": exposure,
             "subtract": subtract, "normalize": normalize, "include_pn": include_pn,
-            "noise_false": rng.choice([None, 1.0, 2.0, 0.125]), "noise_seed": rng.choice([1, 7, -1]),
-            "masks": masks, "remask": ["fresh", "chain", "inplace"][i % 3], "img_how": ["plain", "arith", "native"][(i // 2) % 3]}
+            "noise_false": noise_false, "noise_seed": noise_seed,
+            "masks": masks, "remask": ["fresh", "chain", "inplace"][i % 3],
+            "img_how": ["plain", "arith", "native", "int", "sub", "f32", "kern"][(i // 2) % 7],
+            "psf_none": psf_none, "ips": SCALES[(i + 1) % 5], "kps": SCALES[(i // 2) % 5], "iorigin": ORIGINS[(i // 3) % 3],
+            "mask_kind": MASK_KINDS[(i // 2) % 4], "direct": [None, "default", "false", "true"][i % 4]}
 
 def cmask(m): return clist([clist([cbool(b) for b in r]) for r in m])
 def cqv(v): return clist([cq(x) for x in v])
@@ -232,6 +299,7 @@ def run_case(inp):
     if op == "simulate": return run_simulate(aa, inp)
     if op == "sim": return run_sim(aa, inp)
     if op == "hist": return run_hist(aa, inp)
+    if op == "kinds": return run_kinds(aa, inp)
     vs, ks = p2(inp.get("vs", 0)), p2(inp.get("ks", 0))
     m = inp["m"]; K = [[Fraction(v) * ks for v in r] for r in inp["K"]]
     rng = random.Random(inp["seed"])
@@ -268,7 +336,9 @@ def run_case(inp):
             native = [[Fraction(0) if m[y][x] else native[y][x] for x in range(len(m[0]))] for y in range(len(m))]
             res = call_res(kernel.convolved_array_from, array=arr)
         out = ("ok", [frac(x) for x in np.array(res[1].slim)]) if res[0] == "ok" else res
-        return dict(base, coq=f"(KWhole {cmask(m)} {cqm(native)} {cqm(K)} {cres(out, cqv)})", out=str(out)[:300])
+        probs = result_problems(res[1], m, "whole-frame convolution") if res[0] == "ok" else []
+        return dict(base, coq=f"(KWhole {cmask(m)} {cqm(native)} {cqm(K)} {cres(out, cqv)})", out=str(out)[:300],
+                    py_ok=(False if probs else None), detail={"problems": probs})
     # decoy first: another mask (rotated by 180 degrees: same shape, same pixel count, footprints still inside) and another kernel
     # of the same shape go through the library before the observed objects, so that state remembered from an earlier
     # construction (a cache keyed by shapes / counts) shows up in this very input and the replay is self-contained
@@ -289,11 +359,15 @@ def run_case(inp):
         res = c.convolve_image(image=aa.Array2D(values=fl(img), mask=mask),
                                blurring_image=aa.Array2D(values=fl(bimg), mask=bm) if nb else aa.Array2D(values=np.zeros(0), mask=bm))
         out = [frac(x) for x in np.array(res.slim)]
-        return dict(base, coq=f"(KConvolve {cmask(m)} {cqm(K)} {cqv(img)} {cqv(bimg)} {cqv(out)})", out=[str(x) for x in out])
+        probs = result_problems(res, m, "convolve_image")
+        return dict(base, coq=f"(KConvolve {cmask(m)} {cqm(K)} {cqv(img)} {cqv(bimg)} {cqv(out)})", out=[str(x) for x in out],
+                    py_ok=(False if probs else None), detail={"problems": probs})
     if op == "noblur":
         res = c.convolve_image_no_blurring(image=aa.Array2D(values=fl(img), mask=mask))
         out = [frac(x) for x in np.array(res.slim)]
-        return dict(base, coq=f"(KNoBlur {cmask(m)} {cqm(K)} {cqv(img)} {cqv(out)})", out=[str(x) for x in out])
+        probs = result_problems(res, m, "convolve_image_no_blurring")
+        return dict(base, coq=f"(KNoBlur {cmask(m)} {cqm(K)} {cqv(img)} {cqv(out)})", out=[str(x) for x in out],
+                    py_ok=(False if probs else None), detail={"problems": probs})
     if op == "matrix":
         P = rng.randint(1, 4)
         M = [[v * vs for v in rand_vals(rng, P, inp["sparse"], ints)] for _ in range(nun)]
@@ -400,6 +474,7 @@ def run_hist(aa, inp):
             o = fracs(res.slim); kept.append((tag + " result", res, o))
             cases.append(f"(KConvolve {cmask(mk)} {cqm(Kk)} {cqv(iv)} {cqv(bv)} {cqv(o)})")
             unchanged(tag + " image", io.slim, iv); unchanged(tag + " blurring image", bo.slim, bv)
+            bad.extend(result_problems(res, mk, tag))
         img1, bimg1 = vals(nun), vals(nb)
         i1 = build_array(aa, img1, mask, m, how["image"], rng); b1 = build_array(aa, bimg1, bm, bml, how["image"], rng)
         conv(c, m, K, i1, img1, b1, bimg1, "step 1")
@@ -420,6 +495,14 @@ def run_hist(aa, inp):
         cases.append(f"(KNoBlur {cmask(m)} {cqm(K)} {cqv(img1)} {cqv(fracs(res.slim))})")
         kept.append(("step 4 result", res, fracs(res.slim)))
         unchanged("step 4 image", i1.slim, img1)
+        bad.extend(result_problems(res, m, "step 4"))
+        # the sibling that takes the raw slim ndarray, on the same convolver: the buffer of the image just used, then another one
+        for raw_v in (img1, img2):
+            raw = np.array(fl(raw_v))
+            res = c.convolve_image_no_blurring_interpolation(image=raw)
+            cases.append(f"(KNoBlur {cmask(m)} {cqm(K)} {cqv(raw_v)} {cqv(fracs(res.slim))})")
+            kept.append(("step 4b result", res, fracs(res.slim)))
+            unchanged("step 4b raw image", raw, raw_v)
         # in-place edits by the user, then the same objects again
         _ = np.array(i1.native)
         for j in range(nun):
@@ -497,11 +580,229 @@ def run_hist(aa, inp):
     return {"coq": cases[0], "extra_coq": cases[1:], "py_ok": (False if bad else None), "kind": "hist", "nontrivial": nontrivial,
             "out": {"steps": len(cases), "modified": bad}, "detail": {"modified": bad}}
 
+# ------------------------------------------------------------------ input kinds, subclasses, constructors, geometries
+_SUB = {}
+def subclasses(aa):
+    """user subclasses of the accepted classes (dispatch on type(x) instead of isinstance would miss them)"""
+    if not _SUB:
+        class UserMask2D(aa.Mask2D): pass
+        class UserArray2D(aa.Array2D): pass
+        class UserKernel2D(aa.Kernel2D): pass
+        _SUB.update(mask=UserMask2D, array=UserArray2D, kernel=UserKernel2D)
+    return _SUB
+
+def ps(x): return tuple(x) if isinstance(x, (list, tuple)) else x
+
+def kind_vals(rng, n, kind):
+    """values that the input kind represents exactly"""
+    if kind == "bool": return [Fraction(rng.randint(0, 1)) for _ in range(n)]
+    if kind == "uint8": return [Fraction(rng.choice([0, 0, 1, 2, 5, 9])) for _ in range(n)]
+    if kind in ("int64", "int32", "int8"): return [Fraction(rng.choice([0, 1, -1, 2, -3, 5, 7, -9])) for _ in range(n)]
+    return [Fraction(rng.randint(-20, 20), rng.choice([1, 1, 4])) if rng.random() < 0.8 else Fraction(0) for _ in range(n)]
+
+def typed(vals, kind, shape=None):
+    """the values as an object of the given kind (1-D, or 2-D when shape is given)"""
+    fv = [float(v) for v in vals]
+    if kind in ("int64", "int32", "int8", "uint8", "bool", "f32", "f64", "sub", "kern", "fortran"):
+        dt = {"f32": np.float32, "f64": float, "sub": float, "kern": float, "fortran": float, "bool": bool}.get(kind, kind)
+        a = np.array([int(v) for v in vals] if kind not in ("f32", "f64", "sub", "kern", "fortran") else fv, dtype=dt)
+        if shape is not None: a = a.reshape(shape)
+        return np.asfortranarray(a) if kind == "fortran" else a
+    if kind == "list":
+        l = [int(v) if (v.denominator == 1 and j % 2) else float(v) for j, v in enumerate(vals)]
+        return l if shape is None else [l[r * shape[1]:(r + 1) * shape[1]] for r in range(shape[0])]
+    if kind == "view":                 # a non-contiguous view into a larger buffer
+        if shape is None:
+            big = np.full(2 * len(fv) + 1, 77.0); big[1::2] = fv
+            return big[1::2]
+        big = np.full((shape[0], 2 * shape[1] + 1), 77.0); big[:, 1::2] = np.array(fv).reshape(shape)
+        return big[:, 1::2]
+    raise ValueError(kind)
+
+def same_object_contents(obj, vals, kind):
+    a = np.asarray(obj)
+    return [frac(x) for x in a.astype(float).ravel()] == list(vals) and (kind == "list" or a.dtype == np.asarray(typed(vals, kind)).dtype)
+
+def kernel_of_kind(aa, K0, kk, kps, bad):
+    """(Kernel2D object, its expected contents)"""
+    kh, kw = len(K0), len(K0[0]); sub = subclasses(aa)
+    if kk == "ones":
+        k, K = aa.Kernel2D.ones(shape_native=(kh, kw), pixel_scales=kps), [[Fraction(1)] * kw for _ in range(kh)]
+    elif kk == "zeros":
+        k, K = aa.Kernel2D.zeros(shape_native=(kh, kw), pixel_scales=kps), [[Fraction(0)] * kw for _ in range(kh)]
+    elif kk == "full":
+        v = K0[0][0] if K0[0][0] != 0 else Fraction(-3, 4)
+        k, K = aa.Kernel2D.full(fill_value=float(v), shape_native=(kh, kw), pixel_scales=kps), [[v] * kw for _ in range(kh)]
+    elif kk == "noblur":
+        k, K = aa.Kernel2D.no_blur(pixel_scales=kps), None
+    elif kk == "normalize":
+        s0 = sum(v for r in K0 for v in r)
+        k, K = aa.Kernel2D.no_mask(values=[fl(r) for r in K0], pixel_scales=kps, normalize=True), [[v / s0 for v in r] for r in K0]
+    elif kk == "normalized":
+        s0 = sum(v for r in K0 for v in r)
+        src = aa.Kernel2D.no_mask(values=np.array([fl(r) for r in K0]), pixel_scales=kps)
+        k, K = src.normalized, [[v / s0 for v in r] for r in K0]
+        if fracs(src.native) != [v for r in K0 for v in r]: bad.append("Kernel2D.normalized modified the kernel it was read from")
+    elif kk == "int":
+        k, K = aa.Kernel2D.no_mask(values=np.array([[int(v) for v in r] for r in K0]), pixel_scales=kps), K0
+    elif kk == "f32":
+        k, K = aa.Kernel2D.no_mask(values=np.array([fl(r) for r in K0], dtype=np.float32), pixel_scales=kps), K0
+    elif kk == "sub":
+        k, K = sub["kernel"](values=np.array([fl(r) for r in K0]), mask=aa.Mask2D.all_false(shape_native=(kh, kw), pixel_scales=kps)), K0
+    elif kk == "slim":
+        k, K = aa.Kernel2D.no_mask(values=fl([v for r in K0 for v in r]), shape_native=(kh, kw), pixel_scales=kps), K0
+    else:
+        k, K = aa.Kernel2D.no_mask(values=[fl(r) for r in K0], pixel_scales=kps), K0
+    shp = tuple(int(x) for x in k.shape_native)
+    got = fracs(k.native); got = [got[r * shp[1]:(r + 1) * shp[1]] for r in range(shp[0])]
+    if K is None:        # no_blur: an identity kernel (odd shape, 1 at the centre) whatever its size
+        if not (shp[0] % 2 and shp[1] % 2 and all(got[a][b] == int((a, b) == (shp[0] // 2, shp[1] // 2)) for a in range(shp[0]) for b in range(shp[1]))):
+            bad.append(f"Kernel2D.no_blur is not an identity kernel: {[[str(v) for v in r] for r in got]}")
+        K = got
+    elif got != K:
+        bad.append(f"Kernel2D built as '{kk}' holds {[[str(v) for v in r] for r in got]} (shape {shp}), expected {[[str(v) for v in r] for r in K]}")
+        K = got if (got and got[0]) else K
+    return k, K
+
+def mask_of_kind(aa, m, kind, mps, origin):
+    if kind == "sub": return subclasses(aa)["mask"](mask=np.array(m, dtype=bool), pixel_scales=mps, origin=origin)
+    if kind == "list": return aa.Mask2D(mask=[list(r) for r in m], pixel_scales=mps, origin=origin)
+    if kind == "int": return aa.Mask2D(mask=np.array(m, dtype=int), pixel_scales=mps, origin=origin)
+    return aa.Mask2D(mask=np.array(m, dtype=bool), pixel_scales=mps, origin=origin)
+
+def array_of_kind(aa, vals, mask, kind):
+    v = typed(vals, kind) if len(vals) else np.zeros(0)
+    if kind == "sub": return subclasses(aa)["array"](values=v, mask=mask)
+    if kind == "kern": return aa.Kernel2D(values=v, mask=mask)
+    return aa.Array2D(values=v, mask=mask)
+
+def result_problems(res, m, what):
+    """the returned structure: paired with the mask it was computed for, native view consistent with the slim one"""
+    out = []
+    a = np.asarray(res.slim)
+    mm = np.array(m, dtype=bool)
+    if np.array(res.mask, dtype=bool).shape != mm.shape or not np.array_equal(np.array(res.mask, dtype=bool), mm):
+        out.append(f"{what}: the result is not paired with the mask it was computed for")
+    else:
+        nat = np.asarray(res.native, dtype=float)
+        if nat.shape != mm.shape or not np.array_equal(nat[~mm], a.astype(float)) or np.any(nat[mm] != 0.0):
+            out.append(f"{what}: result.native is not the slim result placed at the unmasked pixels")
+    return out
+
+def defaults_fingerprint(aa):
+    """shared default-argument objects of the entry points (OverSamplingDataset() of Imaging, ...)"""
+    def fp(o, d=0):
+        if isinstance(o, (int, float, str, bool, type(None))): return repr(o)
+        if isinstance(o, np.ndarray): return repr(o.tolist())
+        if isinstance(o, (list, tuple)): return "[" + ",".join(fp(x, d + 1) for x in o) + "]"
+        if hasattr(o, "__dict__") and d < 3: return type(o).__name__ + "{" + ",".join(f"{k}:{fp(v, d + 1)}" for k, v in sorted(vars(o).items())) + "}"
+        return type(o).__name__
+    fs = [aa.Imaging.__init__, aa.Imaging.apply_over_sampling, aa.Imaging.from_fits.__func__, aa.SimulatorImaging.__init__,
+          aa.Convolver.__init__, aa.Kernel2D.__init__, aa.Kernel2D.no_mask.__func__, aa.Array2D.__init__, aa.Mask2D.__init__]
+    return [fp(list(f.__defaults__ or ()) + sorted((f.__kwdefaults__ or {}).items())) for f in fs]
+
+def run_kinds(aa, inp):
+    import random
+    rng = random.Random(inp["seed"])
+    m = inp["m"]; H, W = len(m), len(m[0])
+    K0 = [[Fraction(v) for v in r] for r in inp["K"]]
+    ik, mk = inp["ik"], inp["mk"]
+    cases, bad = [], []
+    fp0 = defaults_fingerprint(aa)
+    kernel, K = kernel_of_kind(aa, K0, inp["kk"], ps(inp["kps"]), bad)
+    kh, kw = len(K), len(K[0]); kflat = [v for r in K for v in r]
+    mask = mask_of_kind(aa, m, inp["mask_kind"], ps(inp["mps"]), tuple(inp["morigin"]))
+    if [[bool(b) for b in r] for r in np.array(mask)] != [list(r) for r in m]: bad.append("the Mask2D does not hold the mask it was built from")
+    nun = sum(1 for r in m for b in r if not b)
+    def unchanged(what):
+        if fracs(kernel.native) != kflat: bad.append(f"the kernel was modified by {what}")
+        if [[bool(b) for b in r] for r in np.array(mask)] != [list(r) for r in m]: bad.append(f"the mask was modified by {what}")
+    try:
+        c = aa.Convolver(mask=mask, kernel=kernel)
+        out = ("ok", (int(c.pixels_in_mask), int(c.pixels_in_blurring_mask), [[bool(b) for b in r] for r in c.blurring_mask]))
+    except Exception as e:
+        c = None; out = ("raise", exn_name(e))
+    cases.append(f"(KInit {cmask(m)} {cqm(K)} " + cres(out, lambda v: ctup([cnat(v[0]), cnat(v[1]), cmask(v[2])])) + ")")
+    unchanged("Convolver(...)")
+    if c is not None:
+        bm = mask.derive_mask.blurring_from(kernel_shape_native=(kh, kw)); nb = int(bm.pixels_in_mask)
+        img, bimg = kind_vals(rng, nun, ik), kind_vals(rng, nb, ik)
+        io, bo = array_of_kind(aa, img, mask, ik), array_of_kind(aa, bimg, bm, ik)
+        res = c.convolve_image(image=io, blurring_image=bo)
+        cases.append(f"(KConvolve {cmask(m)} {cqm(K)} {cqv(img)} {cqv(bimg)} {cqv(fracs(res.slim))})")
+        bad += result_problems(res, m, "convolve_image")
+        if fracs(io.slim) != img or fracs(bo.slim) != bimg: bad.append("convolve_image modified its arguments")
+        res = c.convolve_image_no_blurring(image=io)
+        cases.append(f"(KNoBlur {cmask(m)} {cqm(K)} {cqv(img)} {cqv(fracs(res.slim))})")
+        bad += result_problems(res, m, "convolve_image_no_blurring")
+        # the sibling entry point that takes the raw 1-D ndarray (not an Array2D): integer / bool / float32 / non-contiguous buffers
+        rk = ik if ik not in ("list", "sub", "kern") else "int64"
+        raw_v = kind_vals(rng, nun, rk); raw = typed(raw_v, rk) if nun else np.zeros(0, dtype=np.asarray(typed([Fraction(1)], rk)).dtype)
+        for rep in range(2):           # twice with the same object
+            res = c.convolve_image_no_blurring_interpolation(image=raw)
+            if rep == 0: first = fracs(res.slim); cases.append(f"(KNoBlur {cmask(m)} {cqm(K)} {cqv(raw_v)} {cqv(first)})")
+            elif fracs(res.slim) != first: bad.append("convolve_image_no_blurring_interpolation: a second call with the same object gives another result")
+            bad += result_problems(res, m, "convolve_image_no_blurring_interpolation")
+            if not same_object_contents(raw, raw_v, rk): bad.append("convolve_image_no_blurring_interpolation modified its argument")
+        P = inp["ncols"]
+        Mv = [kind_vals(rng, P, mk) for _ in range(nun)]
+        if nun and P:
+            Mo = typed([v for r in Mv for v in r], mk, (nun, P))
+        else:
+            Mo = np.zeros((nun, P), dtype=np.asarray(typed([Fraction(1)], mk if mk not in ("fortran", "view") else "f64")).dtype)
+        keep = []
+        for rep in range(2):
+            res = c.convolve_mapping_matrix(mapping_matrix=Mo)
+            r = np.asarray(res)
+            if r.shape != (nun, P): bad.append(f"blurred mapping matrix shape {r.shape}, expected {(nun, P)}")
+            o = [[frac(x) for x in row] for row in r.astype(float)] if r.ndim == 2 else []
+            if rep == 0: cases.append(f"(KMatrix {cmask(m)} {cqm(K)} {cqm(Mv)} {cqm(o)})")
+            elif o != keep[0][1]: bad.append("convolve_mapping_matrix: a second call with the same object gives another result")
+            keep.append((res, o))
+            if not same_object_contents(Mo, [v for r in Mv for v in r], mk if (nun and P) else "list"): bad.append("convolve_mapping_matrix modified its argument")
+        if keep[0][1] != [[frac(x) for x in row] for row in np.asarray(keep[0][0]).astype(float)]: bad.append("an earlier blurred mapping matrix changed after the next call")
+        unchanged("the convolutions")
+    # whole-frame convolution: the array's geometry (pixel scales, origin) differs from the kernel's and the mask's
+    nat = kind_vals(rng, H * W, ik)
+    natg = [nat[y * W:(y + 1) * W] for y in range(H)]
+    cls = subclasses(aa)["array"] if ik == "sub" else aa.Array2D
+    vals2d = typed(nat, ik if ik not in ("sub", "kern") else "f64", (H, W))
+    arr = cls.no_mask(values=vals2d, pixel_scales=ps(inp["aps"]), origin=tuple(inp["aorigin"]))
+    res = call_res(kernel.convolved_array_from, array=arr)
+    o = ("ok", fracs(res[1].slim)) if res[0] == "ok" else res
+    allf = [[False] * W for _ in range(H)]
+    cases.append(f"(KWhole {cmask(allf)} {cqm(natg)} {cqm(K)} {cres(o, cqv)})")
+    if res[0] == "ok": bad += result_problems(res[1], allf, "convolved_array_from")
+    if fracs(arr.slim) != nat: bad.append("convolved_array_from modified its argument")
+    # masked array: zero outside the array's own mask
+    marr = array_of_kind(aa, [natg[y][x] for y in range(H) for x in range(W) if not m[y][x]], mask, ik)
+    res = call_res(kernel.convolved_array_from, array=marr)
+    o = ("ok", fracs(res[1].slim)) if res[0] == "ok" else res
+    natz = [[Fraction(0) if m[y][x] else natg[y][x] for x in range(W)] for y in range(H)]
+    cases.append(f"(KWhole {cmask(m)} {cqm(natz)} {cqm(K)} {cres(o, cqv)})")
+    if res[0] == "ok": bad += result_problems(res[1], m, "convolved_array_from (masked array)")
+    # convolved_array_with_mask_from takes the raw 2-D values (list of lists, integer / bool / float32 ndarray, view, Array2D.native)
+    raw2 = arr.native if ik in ("sub", "kern", "f64") else typed(nat, ik, (H, W))
+    res = call_res(kernel.convolved_array_with_mask_from, array=raw2, mask=mask)
+    o = ("ok", fracs(res[1].slim)) if res[0] == "ok" else res
+    cases.append(f"(KWhole {cmask(m)} {cqm(natg)} {cqm(K)} {cres(o, cqv)})")
+    if res[0] == "ok": bad += result_problems(res[1], m, "convolved_array_with_mask_from")
+    if [frac(x) for x in np.asarray(raw2, dtype=float).ravel()] != nat: bad.append("convolved_array_with_mask_from modified its argument")
+    unchanged("the whole-frame convolutions")
+    if defaults_fingerprint(aa) != fp0: bad.append("a shared default-argument object of an entry point was modified")
+    nontrivial = nun >= 2 and sum(1 for v in kflat if v != 0) > 1
+    return {"coq": cases[0], "extra_coq": cases[1:], "py_ok": (False if bad else None), "kind": "kinds", "nontrivial": nontrivial,
+            "out": {"steps": len(cases), "problems": bad}, "detail": {"problems": bad}}
+
 # ------------------------------------------------------------------ simulator -> apply_mask -> convolver
 def pad_native(g, hy, hx, fill):
     W = len(g[0])
     return [[fill] * (W + 2 * hx) for _ in range(hy)] + [[fill] * hx + list(r) + [fill] * hx for r in g] + \
            [[fill] * (W + 2 * hx) for _ in range(hy)]
+
+def kmat(k):
+    shp = tuple(int(x) for x in k.shape_native); f = fracs(k.native)
+    return [f[r * shp[1]:(r + 1) * shp[1]] for r in range(shp[0])]
 
 def run_sim(aa, inp):
     import random
@@ -512,35 +813,52 @@ def run_sim(aa, inp):
     H, W = len(images[0]), len(images[0][0])
     sky = Fraction(inp["sky"]); normalize = inp["normalize"]
     subtract = True if inp["subtract"] is None else inp["subtract"]
-    kernel = aa.Kernel2D.no_mask(values=[fl(r) for r in K], pixel_scales=1.0)
-    kw_args = dict(exposure_time=inp["exposure"], background_sky_level=float(sky), psf=kernel, normalize_psf=normalize,
+    ips, kps, iorigin = ps(inp.get("ips", 1.0)), ps(inp.get("kps", 1.0)), tuple(inp.get("iorigin", (0.0, 0.0)))
+    psf_none = bool(inp.get("psf_none"))
+    fp0 = defaults_fingerprint(aa)
+    kernel = aa.Kernel2D.no_mask(values=[fl(r) for r in K], pixel_scales=kps)
+    kw_args = dict(exposure_time=inp["exposure"], background_sky_level=float(sky), normalize_psf=normalize,
                    add_poisson_noise_to_data=False, include_poisson_noise_in_noise_map=inp["include_pn"], noise_seed=inp["noise_seed"])
+    if not psf_none: kw_args["psf"] = kernel
     if inp["subtract"] is not None: kw_args["subtract_background_sky"] = inp["subtract"]
     if inp["noise_false"] is not None: kw_args["noise_if_add_noise_false"] = inp["noise_false"]
     sim = aa.SimulatorImaging(**kw_args)
     cases, bad = [], []
     if fracs(kernel.native) != [v for r in K for v in r]: bad.append("the caller's kernel was modified by SimulatorImaging(...)")
-    s = sum(v for r in K for v in r)
-    P = [[v / s for v in r] for r in K] if normalize else K          # the PSF the dataset must carry (checked by KSim's spec)
     def make(im, how):
-        flat = [v for r in im for v in r]
+        flat = [v for r in im for v in r]; h, w = len(im), len(im[0])
+        kwg = dict(pixel_scales=ips, origin=iorigin)
         if how == "arith":
             A = [Fraction(rng.randint(0, 5)) for _ in flat]
-            return aa.Array2D.no_mask(values=np.array(fl(A)).reshape(H, W), pixel_scales=1.0) + \
-                   aa.Array2D.no_mask(values=np.array(fl([v - a for v, a in zip(flat, A)])).reshape(H, W), pixel_scales=1.0)
+            return aa.Array2D.no_mask(values=np.array(fl(A)).reshape(h, w), **kwg) + \
+                   aa.Array2D.no_mask(values=np.array(fl([v - a for v, a in zip(flat, A)])).reshape(h, w), **kwg)
         if how == "native":
-            return aa.Array2D(values=np.array([fl(r) for r in im]), mask=aa.Mask2D.all_false(shape_native=(H, W), pixel_scales=1.0),
-                              store_native=True)
-        return aa.Array2D.no_mask(values=[fl(r) for r in im], pixel_scales=1.0)
+            return aa.Array2D(values=np.array([fl(r) for r in im]), mask=aa.Mask2D.all_false(shape_native=(h, w), **kwg), store_native=True)
+        if how == "int" and all(v.denominator == 1 for v in flat): return aa.Array2D.no_mask(values=typed(flat, "int64", (h, w)), **kwg)
+        if how in ("int", "f32"): return aa.Array2D.no_mask(values=typed(flat, "f32", (h, w)), **kwg)
+        if how == "sub": return subclasses(aa)["array"].no_mask(values=typed(flat, "list", (h, w)), **kwg)
+        if how == "kern": return aa.Kernel2D.no_mask(values=[fl(r) for r in im], **kwg)        # an AbstractArray2D that is not an Array2D
+        return aa.Array2D.no_mask(values=[fl(r) for r in im], **kwg)
     objs = [make(images[0], inp["img_how"])] + [make(im, "plain") for im in images[1:]]
     order = [0] if len(images) == 1 else [0, 1, 0]
     ds = None; data0 = None; keep = []
+    def sim_state(): return (fracs(sim.psf.native), tuple(sim.psf.shape_native), sim.exposure_time, sim.background_sky_level, sim.subtract_background_sky,
+                             sim.add_poisson_noise_to_data, sim.include_poisson_noise_in_noise_map, sim.noise_if_add_noise_false, sim.noise_seed)
+    st0 = sim_state()
     for idx in order:                       # the same simulator, the same input objects
+        hi, wi = len(images[idx]), len(images[idx][0])
         res = call_res(sim.via_image_from, image=objs[idx])
         if res[0] == "ok":
             d = res[1]
+            if psf_none:
+                # the simulator's own kernel must be an identity kernel (odd shape, 1 at the centre); its size is the library's choice
+                Kd = kmat(d.psf); sh = (len(Kd), len(Kd[0]))
+                if not (sh[0] % 2 and sh[1] % 2 and all(Kd[a][b] == int((a, b) == (sh[0] // 2, sh[1] // 2)) for a in range(sh[0]) for b in range(sh[1]))):
+                    bad.append(f"psf omitted: the simulator's kernel is not an identity kernel: {[[str(v) for v in r] for r in Kd]}")
+                K, kh, kw = Kd, sh[0], sh[1]
             out = ("ok", ([fracs(r) for r in np.array(d.psf.native)], fracs(d.data.slim)))
-            if d.data.shape_native != (H, W): bad.append(f"simulated data has shape {d.data.shape_native}, image {(H, W)}")
+            if d.data.shape_native != (hi, wi): bad.append(f"simulated data has shape {d.data.shape_native}, image {(hi, wi)}")
+            if not np.array_equal(np.array(d.data.mask, dtype=bool), np.zeros((hi, wi), dtype=bool)): bad.append("the simulated data is not on the whole frame")
             if idx == 0: ds, data0 = d, out[1][1]
             keep.append((d, out[1][1]))
         else: out = res
@@ -548,7 +866,26 @@ def run_sim(aa, inp):
                      cres(out, lambda v: ctup([cqm(v[0]), cqv(v[1])])) + ")")
         if fracs(objs[idx].slim if not objs[idx].store_native else objs[idx].native) != [v for r in images[idx] for v in r]:
             bad.append("the caller's image was modified by via_image_from")
+        if sim_state() != st0: bad.append("via_image_from changed the simulator's own settings")
+    if not psf_none and fracs(kernel.native) != [v for r in K for v in r]: bad.append("the caller's kernel was modified by via_image_from")
+    s = sum(v for r in K for v in r)
+    P = [[v / s for v in r] for r in K] if normalize else K          # the PSF the dataset must carry (checked by KSim's spec)
     detail = {"residual_max": []}
+    def through_convolver(dd, mp, Pk, g, noblur=False):
+        """dd.convolver on the image g (native, on the frame of mp): one KConvolve / KNoBlur case; returns the blurred slim values"""
+        bm = dd.mask.derive_mask.blurring_from(kernel_shape_native=(len(Pk), len(Pk[0]))); bml = [[bool(b) for b in r] for r in np.array(bm)]
+        Hp, Wp = len(mp), len(mp[0])
+        iv = [g[y][x] for y in range(Hp) for x in range(Wp) if not mp[y][x]]
+        bv = [g[y][x] for y in range(Hp) for x in range(Wp) if not bml[y][x]]
+        io = aa.Array2D(values=fl(iv), mask=dd.mask)
+        if noblur:
+            blurred = dd.convolver.convolve_image_no_blurring(image=io); bo = fracs(blurred.slim)
+            cases.append(f"(KNoBlur {cmask(mp)} {cqm(Pk)} {cqv(iv)} {cqv(bo)})")
+        else:
+            blurred = dd.convolver.convolve_image(image=io, blurring_image=aa.Array2D(values=fl(bv), mask=bm) if bv else aa.Array2D(values=np.zeros(0), mask=bm))
+            bo = fracs(blurred.slim)
+            cases.append(f"(KConvolve {cmask(mp)} {cqm(Pk)} {cqv(iv)} {cqv(bv)} {cqv(bo)})")
+        return bo
     if ds is not None and len(data0) == H * W:
         image = images[0]
         dsm_prev = None; mobj = None
@@ -558,7 +895,7 @@ def run_sim(aa, inp):
                     for x in range(W):
                         if bool(mobj[y, x]) != m[y][x]: mobj[y, x] = m[y][x]
             else:
-                mobj = aa.Mask2D(mask=np.array(m, dtype=bool), pixel_scales=1.0)
+                mobj = mask_of_kind(aa, m, inp.get("mask_kind", "plain"), kps if "kps" in inp else 1.0, iorigin)
             src = dsm_prev if (inp["remask"] == "chain" and dsm_prev is not None) else ds
             dsm = src.apply_mask(mask=mobj)
             dsm_prev = dsm
@@ -574,23 +911,40 @@ def run_sim(aa, inp):
             if subtract or sky == 0:
                 # the masked data = the whole-frame convolution of the generating image at the unmasked pixels
                 cases.append(f"(KWhole {cmask(mp)} {cqm(gp)} {cqm(P)} (Ok {cqv(md)}))")
-            bm = dsm.mask.derive_mask.blurring_from(kernel_shape_native=(kh, kw)); bml = [[bool(b) for b in r] for r in np.array(bm)]
-            Hp, Wp = len(mp), len(mp[0])
-            todo = [gp] + ([pad_native(images[1], hy, hx, Fraction(0))] if (j == 0 and len(images) > 1) else [])
+            same = (j == 0 and len(images) > 1 and (len(images[1]), len(images[1][0])) == (H, W))
+            todo = [gp] + ([pad_native(images[1], hy, hx, Fraction(0))] if same else [])
             for t, g in enumerate(todo):       # dsm.convolver: read once per call (cached property), used for two different images
-                iv = [g[y][x] for y in range(Hp) for x in range(Wp) if not mp[y][x]]
-                bv = [g[y][x] for y in range(Hp) for x in range(Wp) if not bml[y][x]]
-                blurred = dsm.convolver.convolve_image(image=aa.Array2D(values=fl(iv), mask=dsm.mask),
-                                                       blurring_image=aa.Array2D(values=fl(bv), mask=bm) if bv else aa.Array2D(values=np.zeros(0), mask=bm))
-                bo = fracs(blurred.slim)
-                cases.append(f"(KConvolve {cmask(mp)} {cqm(P)} {cqv(iv)} {cqv(bv)} {cqv(bo)})")
+                bo = through_convolver(dsm, mp, P, g)
                 if t == 0 and (subtract or sky == 0):
                     resid = [a - b for a, b in zip(md, bo)]
                     detail["residual_max"].append(str(max([abs(r) for r in resid], default=0)))
                     if len(md) != len(bo) or any(r != 0 for r in resid):
                         bad.append(f"non-zero residual of the generating image on mask {j}: max {max(abs(r) for r in resid) if resid else 'length mismatch'}")
+        # an Imaging dataset built DIRECTLY from the simulated arrays and a caller-owned kernel (use_normalized_psf default / off / on),
+        # masked, then re-derived by apply_over_sampling: its convolver must blur with the PSF the dataset carries
+        direct = inp.get("direct")
+        if direct:
+            if direct in ("default", "true") and not (normalize or psf_none): direct = "false"     # K / sum(K) exact only when sum = +-2^j
+            k2 = aa.Kernel2D.no_mask(values=[fl(r) for r in K], pixel_scales=ips)
+            kwd = {} if direct == "default" else {"use_normalized_psf": direct == "true"}
+            m = inp["masks"][0]
+            pad = not footprints_inside(m, kh, kw)
+            hy, hx = (kh // 2, kw // 2) if pad else (0, 0)
+            mp = pad_native(m, hy, hx, True); gp = pad_native(image, hy, hx, Fraction(0))
+            dI = aa.Imaging(data=ds.data, noise_map=ds.noise_map, psf=k2, **kwd)
+            dm = dI.apply_mask(mask=aa.Mask2D(mask=np.array(m, dtype=bool), pixel_scales=ips, origin=iorigin))
+            variants = [dm, dm.apply_over_sampling(over_sampling=aa.OverSamplingDataset()) if inp["noise_seed"] == 1 else dm.apply_over_sampling()]
+            for t, dd in enumerate(variants):
+                if [[bool(b) for b in r] for r in np.array(dd.mask)] != mp:
+                    bad.append("directly built dataset: mask differs from the applied (padded) mask"); continue
+                Pd = kmat(dd.psf)          # the PSF this dataset carries (its normalisation is the dataset's business)
+                if (len(Pd), len(Pd[0])) != (kh, kw): bad.append("directly built dataset: PSF shape changed"); continue
+                through_convolver(dd, mp, Pd, gp, noblur=bool(t))
+                if fracs(k2.native) != [v for r in K for v in r]: bad.append("the caller's kernel was modified by Imaging(...) / apply_mask / apply_over_sampling / convolver")
+            if fracs(ds.data.slim) != data0: bad.append("the simulated data was modified by building another dataset from it")
     for d, want in keep:
         if fracs(d.data.slim) != want: bad.append("a dataset simulated earlier changed after later calls")
+    if defaults_fingerprint(aa) != fp0: bad.append("a shared default-argument object (OverSamplingDataset() ...) was modified")
     detail["modified_or_residual"] = bad
     return {"coq": cases[0], "extra_coq": cases[1:], "py_ok": (False if bad else True), "kind": "sim", "nontrivial": True,
             "out": {"cases": len(cases), "problems": bad}, "detail": detail}
